@@ -278,4 +278,150 @@ theorem isReal_sound (s : Str) (h : isReal s = true) : RealSyntax s := by
       · conv => lhs; rw [h1, ht, h2, hd1, he1]
         simp [List.append_assoc]
 
+/-! ## … and every string of that shape is accepted -/
+
+theorem space_not_special {c : Char} (h : isSpace c = true) : isDigit c = false ∧ c ≠ '.' ∧ c ≠ 'e' ∧ c ≠ 'E' ∧ c ≠ '-' ∧ c ≠ '+' := by
+  refine ⟨not_digit_of_space h, ?_, ?_, ?_, ?_, ?_⟩ <;> (intro e; subst e; simp [isSpace] at h)
+
+/-- the exponent part (possibly absent) followed by blanks -/
+def ExpPart (ex : Str) : Prop :=
+  ex = [] ∨ ∃ (c : Char) (sg ed : Str), ex = c :: (sg ++ ed) ∧ (c = 'e' ∨ c = 'E') ∧ (sg = [] ∨ sg = ['-'] ∨ sg = ['+']) ∧
+    ed ≠ [] ∧ ∀ d ∈ ed, isDigit d = true
+
+theorem exp_tail_head {ex ws2 : Str} (hex : ExpPart ex) (hw2 : ∀ c ∈ ws2, isSpace c = true) :
+    ∀ c, (ex ++ ws2).head? = some c → isDigit c = false ∧ c ≠ '.' := by
+  intro c hc
+  rcases hex with rfl | ⟨c', sg, ed, rfl, hc', _, _, _⟩
+  · cases ws2 with
+    | nil => simp at hc
+    | cons x xs =>
+      have : c = x := by simpa using hc.symm
+      subst this
+      have := space_not_special (hw2 c List.mem_cons_self)
+      exact ⟨this.1, this.2.1⟩
+  · have : c = c' := by simpa using hc.symm
+    subst this
+    rcases hc' with rfl | rfl <;> exact ⟨by decide, by decide⟩
+
+theorem expOf_part {ex ws2 : Str} (hex : ExpPart ex) (hw2 : ∀ c ∈ ws2, isSpace c = true) : (expOf (ex ++ ws2)).2 = ws2 := by
+  rcases hex with rfl | ⟨c, sg, ed, rfl, hc, hsg, hne, hed⟩
+  · rw [List.nil_append, expOf_none]
+    intro c hc
+    cases ws2 with
+    | nil => simp at hc
+    | cons x xs =>
+      have : c = x := by simpa using hc.symm
+      subst this
+      have := space_not_special (hw2 c List.mem_cons_self)
+      exact ⟨this.2.2.1, this.2.2.2.1⟩
+  · have hce : (c == 'e' || c == 'E') = true := by rcases hc with rfl | rfl <;> decide
+    have htw := takeWhile_digits' ed ws2 hed (fun x hx => by
+      cases ws2 with
+      | nil => simp at hx
+      | cons y ys =>
+        have : x = y := by simpa using hx.symm
+        subst this
+        exact not_digit_of_space (hw2 x List.mem_cons_self))
+    obtain ⟨d, ed', rfl⟩ := List.exists_cons_of_ne_nil hne
+    have hd := hed d List.mem_cons_self
+    have hsign : (signOf (sg ++ (d :: ed') ++ ws2)).2 = (d :: ed') ++ ws2 := by
+      rcases hsg with rfl | rfl | rfl
+      · simp only [List.nil_append, List.cons_append]; rw [signOf_digit _ hd]
+      · rfl
+      · rfl
+    have e1 : c :: (sg ++ d :: ed') ++ ws2 = c :: (sg ++ (d :: ed') ++ ws2) := by simp
+    rw [e1]
+    simp only [expOf, hce, ↓reduceIte, hsign, htw.1, htw.2, List.isEmpty_cons, Bool.false_eq_true]
+
+theorem isReal_complete (s : Str) (h : RealSyntax s) : isReal s = true := by
+  obtain ⟨ws1, sign, ip, dotfp, ex, ws2, hw1, hsign, hip, hdot, hdig, hex, hw2, rfl⟩ := h
+  have hexp : ExpPart ex := hex
+  have htail := exp_tail_head hexp hw2
+  -- the fraction digits
+  obtain ⟨fp, hfpdef, hfp⟩ : ∃ fp, (dotfp = [] ∧ fp = [] ∨ dotfp = '.' :: fp) ∧ ∀ d ∈ fp, isDigit d = true := by
+    rcases hdot with rfl | ⟨fp, rfl, hfp⟩
+    · exact ⟨[], Or.inl ⟨rfl, rfl⟩, by simp⟩
+    · exact ⟨fp, Or.inr rfl, hfp⟩
+  have hfrac : fracOf (dotfp ++ (ex ++ ws2)) = (fp, ex ++ ws2) := by
+    rcases hfpdef with ⟨rfl, rfl⟩ | rfl
+    · rw [List.nil_append]
+      apply fracOf_nodot
+      intro hc
+      exact (htail '.' hc).2 rfl
+    · have := takeWhile_digits' fp (ex ++ ws2) hfp (fun c hc => (htail c hc).1)
+      simp only [List.cons_append, fracOf, this.1, this.2]
+  have hnone : (ip.isEmpty && fp.isEmpty) = false := by
+    rcases hdig with h | ⟨fp', h1, h2⟩
+    · cases ip with
+      | nil => exact absurd rfl h
+      | cons _ _ => rfl
+    · rcases hfpdef with ⟨h0, _⟩ | h0
+      · rw [h0] at h1; cases h1
+      · rw [h0] at h1; injection h1 with _ h1; subst h1
+        cases fp with
+        | nil => exact absurd rfl h2
+        | cons _ _ => simp
+  -- digits of the integer part, then what follows
+  have hT1head : ∀ c, (dotfp ++ (ex ++ ws2)).head? = some c → isDigit c = false := by
+    intro c hc
+    rcases hfpdef with ⟨rfl, _⟩ | rfl
+    · exact (htail c (by simpa using hc)).1
+    · have : c = '.' := by simpa using hc.symm
+      subst this; decide
+  have hip_tw := takeWhile_digits' ip (dotfp ++ (ex ++ ws2)) hip hT1head
+  -- first character of the number body is not a blank and not a sign
+  have hbody : ∀ c, (ip ++ (dotfp ++ (ex ++ ws2))).head? = some c → isSpace c = false ∧ c ≠ '-' ∧ c ≠ '+' := by
+    intro c hc
+    cases ip with
+    | cons d ip' =>
+      have hd := hip d List.mem_cons_self
+      have : c = d := by simpa using hc.symm
+      subst this
+      refine ⟨not_space_of_digit hd, ?_, ?_⟩ <;> (intro e; subst e; simp [isDigit] at hd)
+    | nil =>
+      rcases hdig with h | ⟨fp', h1, _⟩
+      · exact absurd rfl h
+      · rw [h1] at hc
+        have : c = '.' := by simpa using hc.symm
+        subst this
+        exact ⟨by decide, by decide, by decide⟩
+  obtain ⟨body, hbodydef⟩ : ∃ b : Str, b = ip ++ (dotfp ++ (ex ++ ws2)) := ⟨_, rfl⟩
+  rw [← hbodydef] at hbody hip_tw
+  have hsignOf : signOf body = (false, body) := by
+    cases hb : body with
+    | nil => rfl
+    | cons c r =>
+      obtain ⟨_, h1, h2⟩ := hbody c (by rw [hb]; rfl)
+      unfold signOf
+      split
+      · rename_i r' heq; injection heq with e1 _; exact absurd e1 h1
+      · rename_i r' heq; injection heq with e1 _; exact absurd e1 h2
+      · rfl
+  have hbdrop : body.dropWhile isSpace = body := by
+    cases hb : body with
+    | nil => rfl
+    | cons c r =>
+      have := (hbody c (by rw [hb]; rfl)).1
+      simp only [List.dropWhile_cons, this, Bool.false_eq_true, ↓reduceIte]
+  have hst : ∃ neg, signOf ((ws1 ++ sign ++ ip ++ dotfp ++ ex ++ ws2).dropWhile isSpace) = (neg, body) := by
+    have e : ws1 ++ sign ++ ip ++ dotfp ++ ex ++ ws2 = ws1 ++ (sign ++ body) := by simp [hbodydef, List.append_assoc]
+    rw [e]
+    rcases hsign with rfl | rfl | rfl
+    · refine ⟨false, ?_⟩
+      rw [List.nil_append, dropWhile_space_prefix ws1 body hw1 hbdrop, hsignOf]
+    · refine ⟨true, ?_⟩
+      rw [dropWhile_space_prefix ws1 _ hw1 (by simp [List.dropWhile_cons, isSpace])]
+      rfl
+    · refine ⟨false, ?_⟩
+      rw [dropWhile_space_prefix ws1 _ hw1 (by simp [List.dropWhile_cons, isSpace])]
+      rfl
+  obtain ⟨neg, hst⟩ := hst
+  have hexp2 := expOf_part hexp hw2
+  unfold isReal strtod
+  simp only [hst, hip_tw.1, hip_tw.2, hfrac, hnone, Bool.false_eq_true, ↓reduceIte, hexp2]
+  exact List.all_eq_true.mpr hw2
+
+/-- **"a value of the wrong type", reals**: accepted iff of the documented decimal shape (within the modelled grammar) -/
+theorem isReal_iff (s : Str) : isReal s = true ↔ RealSyntax s := ⟨isReal_sound s, isReal_complete s⟩
+
 end EaselModel.Getopts
